@@ -40,6 +40,11 @@ position (hull of random integer points): the mesh is the hull triangulation, th
      positions x.4 / x.5 / x.6 between two rows, x.9 offsets, negative coordinates; single point / list / float64 / float32 arrays;
      to= nodes / vertices / points / connectors — vs `c18.snapq` (the query cast as the source casts it, Gen/SnapCast.lean) and
      judged by `checkNearestQ` (true nearest row for the exact decimal query; squared distance as exact rational within 2^-12 relative + 2^-20: room for a float32 cast of the query, far below the ≥ 0.1 shift of a truncation).
+ (h) `dotshist`: ONE Dotprops with connectors pruned TWICE — in_volume(big box, IN/OUT) then in_volume(small solid, IN/OUT), and
+     subset_neuron with a boolean mask twice (mask / complement, also in place): the second prune meets the `point` column the first
+     one wrote.  Second step vs `c18.dots` on the once-pruned cloud; Lean checkers `checkOwnConns` (each part carries exactly the
+     connectors attached — by original point — to its retained points) and `checkPartition` (IN ∪ OUT of the second prune partition the
+     connector ids of the once-pruned neuron); the `point` column must address each connector's own point.
 The model functions for skeletons (`c18.tree / prune / nlist / dict / list`) are the `…As` functions evaluated on the *shape*
 of `in_volume` extracted from the current source (Gen/InVolume.lean): they keep predicting navis when the source deviates,
 while the oracles (exact membership decided by Lean) fail.
@@ -1845,6 +1850,96 @@ def run_snapdt(ctx, case):
         ctx.count('snapdt_query', ('fractional' if frac else 'integer') + ('/tie' if nties > 1 else ''))
 
 
+def run_dotshist(ctx, case):
+    """Two-step history on ONE Dotprops with connectors: the first prune creates the `point` column of the connector table, the
+    second prune (boolean mask again) must still keep exactly the connectors attached to the retained points.  Variants:
+    in_volume(big) then in_volume(small) in both modes; subset_neuron with a boolean mask twice (mask and its complement)."""
+    pts2, conns = case['pts'], case['conns']
+    index = {tuple(p): i for i, p in enumerate(pts2)}
+    att = {c[0]: _nearest_unique(pts2, c[1:4]) for c in conns}       # connector -> original point index
+    conn_s = ';'.join(f'{cid}:{a}' for cid, a in att.items())         # as (cid, node) rows for the Lean checkers
+
+    def observe(r):
+        kept = [index.get(tuple(int(round(2 * v)) for v in p), -1) for p in np.asarray(r.points).reshape(-1, 3)]
+        if r.has_connectors and len(r.connectors):
+            kc = [int(v) for v in r.connectors.connector_id.values]
+            pc = [_toint(v) for v in r.connectors['point'].values] if 'point' in r.connectors.columns else None
+        else:
+            kc, pc = [], []
+        return kept, kc, pc
+
+    def judge(tag, r, want_kept):
+        kept, kc, pc = observe(r)
+        ctx.oracle(sorted(kept) == sorted(want_kept), f'{tag}: kept points {sorted(kept)}, expected {sorted(want_kept)}', case)
+        ok = ctx.ask(f'c18.chkconn {conn_s} | {ints(kept)} | {ints(kc)}') == '1'
+        ctx.oracle(ok, f'{tag}: kept connectors {sorted(kc)} are not exactly those attached to the retained points '
+                       f'{sorted(cid for cid, a in att.items() if a in set(kept))} (retained points {sorted(kept)})', case)
+        if pc is not None:
+            ok = all(0 <= j < len(kept) and kept[j] == att[cid] for cid, j in zip(kc, pc))
+            ctx.oracle(ok, f'{tag}: `point` column {list(zip(kc, pc))} does not address each connector\'s own point {att} among '
+                           f'the retained points {kept}', case)
+        return kept, kc
+
+    if case['variant'] == 'volumes':
+        gb, gs = case['big'], case['small']
+        try:
+            vb, _ = build_volume(gb, name='big'); vs, _ = build_volume(gs, name='small')
+        except BadMesh as e:
+            ctx.count('bad_mesh', str(e)[:40]); return
+        if surface_guard(ctx, [gb, gs], pts2):
+            return
+        mb = ctx.ask(f'c18.mem {solid_str(gb)} | {pts_str(pts2)}')
+        ms = ctx.ask(f'c18.mem {solid_str(gs)} | {pts_str(pts2)}')
+        for m1 in ('IN', 'OUT'):
+            first = [i for i in range(len(pts2)) if (mb[i] == '1') == (m1 == 'IN')]
+            parts = {}
+            for m2 in ('IN', 'OUT'):
+                dp = make_dots(pts2, conns)
+                r, err = safe(lambda: navis.in_volume(navis.in_volume(dp, vb, mode=m1), vs, mode=m2))
+                if err:
+                    ctx.oracle(False, f'in_volume(in_volume(Dotprops, big, {m1}), small, {m2}) raised: {err}', case); continue
+                want = [i for i in first if (ms[i] == '1') == (m2 == 'IN')]
+                # model: the second step is in_volume on the Dotprops the first step produced
+                m_first = ctx.ask(f'c18.dots {m1} | {solid_str(gb)} | {pts_str(pts2)} | {pconns_str(conns)}')
+                k1 = is_int_list(m_first.split('|')[0])
+                c1 = [c for c in conns if att[c[0]] in set(k1)]
+                model = ctx.ask(f'c18.dots {m2} | {solid_str(gs)} | {pts_str([pts2[i] for i in k1])} | {pconns_str(c1)}')
+                kept, kc, pc = observe(r)
+                if pc is not None:
+                    impl = f"{ints([k1.index(i) if i in k1 else -1 for i in kept])}|{','.join(f'{a}:{b}' for a, b in zip(kc, pc))}"
+                    ctx.corr(impl, model, f'second in_volume(mode={m2}) after in_volume(big, {m1}): kept points|connector:point vs model', case)
+                parts[m2] = judge(f'in_volume(in_volume(Dotprops, big, {m1}), small, {m2})', r, want)
+                ctx.count('dotshist', f'volumes/{m1}/{m2}/conns-kept={len(parts[m2][1])}')
+            if len(parts) == 2:
+                after1 = [cid for cid, a in att.items() if a in set(first)]
+                ok = ctx.ask(f"c18.chkpart {ints(after1)} | {ints(parts['IN'][1])} | {ints(parts['OUT'][1])}") == '1'
+                ctx.oracle(ok, f"second prune: connectors of IN {parts['IN'][1]} and OUT {parts['OUT'][1]} do not partition the "
+                               f"connectors {after1} of the once-pruned Dotprops (first mode {m1})", case)
+    else:
+        m1 = [bool(b) for b in case['mask1']]
+        first = [i for i, b in enumerate(m1) if b]
+        m2 = [bool(b) for b in case['mask2']][:len(first)]
+        m2 += [False] * (len(first) - len(m2))
+        parts = {}
+        for name, mk in (('mask', m2), ('complement', [not b for b in m2])):
+            dp = make_dots(pts2, conns)
+            def fn():
+                d1 = navis.subset_neuron(dp, np.array(m1, dtype=bool), inplace=case.get('inplace', False))
+                d1 = dp if case.get('inplace', False) else d1
+                return navis.subset_neuron(d1, np.array(mk, dtype=bool))
+            r, err = safe(fn)
+            if err:
+                ctx.oracle(False, f'subset_neuron(subset_neuron(Dotprops, mask), {name}) raised: {err}', case); continue
+            want = [i for i, b in zip(first, mk) if b]
+            parts[name] = judge(f'subset_neuron(subset_neuron(Dotprops, mask1), {name} of mask2)', r, want)
+            ctx.count('dotshist', f'masks/{name}/conns-kept={len(parts[name][1])}')
+        if len(parts) == 2:
+            after1 = [cid for cid, a in att.items() if a in set(first)]
+            ok = ctx.ask(f"c18.chkpart {ints(after1)} | {ints(parts['mask'][1])} | {ints(parts['complement'][1])}") == '1'
+            ctx.oracle(ok, f"second subset: connectors of mask {parts['mask'][1]} and of its complement {parts['complement'][1]} do not "
+                           f"partition the connectors {after1} of the once-subset Dotprops", case)
+
+
 def run_boundary(ctx, case):
     """Points exactly ON the surface (face interior / edge / vertex) are outside the property's quantifier: whatever navis
     answers is accepted; recorded so that the evidence shows the rule in force.  Only crash-freedom and shape are required."""
@@ -2046,6 +2141,31 @@ def gen_cases(ctx):
         case['queries10'] = qs
         yield 'snapdt', case
 
+
+    # (f7) Dotprops with connectors pruned TWICE (the second prune finds the `point` column of the first)
+    for i in range(ctx.budget(40, 300)):
+        if i % 2 == 0:
+            small = gen_geom(rnd, poly=False, pose_kind='trans')
+            sp = small['pose']
+            big = {'shape': 'box', 'csg': [[1, -2, -2, -2, 8, 8, 8]], 'pose': [1, 1, 1, 0, 0, 0, 'xyz'] + list(sp[7:10]), 'tri': rnd.randrange(1 << 16)}
+            vox = sorted(voxelise(small['csg']))
+            pts = distinct_points(query_points2(small, vox, rnd, rnd.randrange(6, 16)) +
+                                  [point_in_cell2(small, rnd.choice(vox), rnd) for _ in range(4)])
+            pts = off_surfaces([big, small], pts)
+            if len(pts) < 4:
+                continue
+            yield 'dotshist', {'variant': 'volumes', 'big': big, 'small': small, 'pts': pts, 'conns': gen_pconns(rnd, pts, rnd.randrange(3, 10))}
+        else:
+            n = rnd.randrange(5, 14)
+            pts = distinct_points([[(2 * rnd.randrange(-8, 9)) | 1 for _ in range(3)] for _ in range(n)])
+            n = len(pts)
+            mask1 = [rnd.random() < 0.7 for _ in range(n)]
+            if sum(mask1) < 3:
+                mask1 = [True] * n
+            mask2 = [rnd.random() < 0.5 for _ in range(n)]
+            yield 'dotshist', {'variant': 'masks', 'pts': pts, 'conns': gen_pconns(rnd, pts, rnd.randrange(3, 10)),
+                               'mask1': mask1, 'mask2': mask2, 'inplace': rnd.random() < 0.3}
+
     # (f4) points exactly on the surface: recorded, not judged
     for i in range(ctx.budget(10, 60)):
         geom = gen_geom(rnd, shape='box', pose_kind='trans')
@@ -2225,7 +2345,7 @@ def gen_cases(ctx):
         yield 'snap', case
 
 
-RUNNERS = {'snapdt': run_snapdt, 'pyocrays': run_pyocrays, 'vox': run_vox, 'backend': run_backend, 'snaptie': run_snaptie, 'boundary': run_boundary, 'hist': run_hist, 'points': run_points, 'tree': run_tree, 'dots': run_dots, 'mesh': run_mesh, 'multi': run_multi,
+RUNNERS = {'dotshist': run_dotshist, 'snapdt': run_snapdt, 'pyocrays': run_pyocrays, 'vox': run_vox, 'backend': run_backend, 'snaptie': run_snaptie, 'boundary': run_boundary, 'hist': run_hist, 'points': run_points, 'tree': run_tree, 'dots': run_dots, 'mesh': run_mesh, 'multi': run_multi,
            'imat': run_imat, 'snap': run_snap}
 
 
@@ -2244,6 +2364,8 @@ def nontrivial(kind, case):
         return True
     if kind == 'snap':
         return len(case['data']) >= 2 or bool(case.get('cdata'))
+    if kind == 'dotshist':
+        return len(case['conns']) >= 2
     if kind == 'hist':
         seen = set()
         for st in case['steps']:
